@@ -98,20 +98,36 @@ class Report:
             self.bad(key, msg, detail=detail, **loc)
         return cond
 
-    def borrowed(self, rule_fn, ctx, as_id, why):
-        """Run another property's rule under this property's id: the invariant it decides is one this property relies on."""
+    def borrowed(self, rule_fn, ctx, as_id, why, only=None):
+        """Run another property's rule under this property's id: the invariant it decides is one this property relies on.
+        `only`: regular expression; instances whose key does not match are left to the owning property
+        (floors are not borrowed when a filter is given)."""
+        import re as _re
         real = self.rule
-
         n = [0]
 
         def renamed(rid, desc, floor=0):
             n[0] += 1
-            return real(as_id if n[0] == 1 else f"{as_id}{chr(ord('a') + n[0] - 1)}", f"{why} [= {rid}: {desc}]", floor)
+            return real(as_id if n[0] == 1 else f"{as_id}{chr(ord('a') + n[0] - 1)}", f"{why} [= {rid}: {desc}]", 0 if only else floor)
         self.rule = renamed
+        if only is not None:
+            pat = _re.compile(only)
+            real_ok, real_bad = self.ok, self.bad
+
+            def ok_f(key, *a, **k):
+                if pat.search(key):
+                    return real_ok(key, *a, **k)
+
+            def bad_f(key, *a, **k):
+                if pat.search(key):
+                    return real_bad(key, *a, **k)
+            self.ok, self.bad = ok_f, bad_f
         try:
             self.guard(rule_fn, ctx)
         finally:
             self.rule = real
+            if only is not None:
+                del self.ok, self.bad
 
     def guard(self, rule_fn, ctx):
         """Run one rule; a missing anchor is a violation of that rule, other rules still run."""
